@@ -68,7 +68,13 @@ def run_method(method, offset, disp, flag):
         interp.interpolated_disparity(ds)
     except Exception as exc:  # pylint: disable=broad-except
         return error_tag(exc)
-    out = from_arrays(ds["disparity_map"].data, ds["validity_mask"].data)
+    try:
+        out = from_arrays(ds["disparity_map"].data, ds["validity_mask"].data)
+    except (ValueError, OverflowError, TypeError) as exc:
+        # the step left something that is not a map of numbers / a map of integer flag words (e.g. the two results
+        # stored into each other's variable): not expressible on the wire, judged by the caller as a specification failure
+        return {"bad_output": f"{type(exc).__name__}: {str(exc)[:120]}",
+                "dtype": [str(ds["disparity_map"].data.dtype), str(ds["validity_mask"].data.dtype)]}
     out["attr"] = ds.attrs.get("interpolated_disparity")
     out["dtype"] = [str(ds["disparity_map"].data.dtype), str(ds["validity_mask"].data.dtype)]
     out["shape_in"] = list(before_d.shape)
